@@ -377,6 +377,15 @@ fn pattern_entries(combos: &[usize], mut pat: usize, background: &[(usize, u32)]
 
 pub fn gen_c12(tier: &str, rng: &mut Rng, w: &mut dyn Write) {
     let thorough = tier == "thorough";
+    // the combos (in iteration order) and the text of every rank pair, given in either rank order
+    for r in 0..13 {
+        writeln!(w, "rank_pair 0 {} 0", r).unwrap();
+        for x in 0..13 {
+            if x != r {
+                writeln!(w, "rank_pair 1 {} {}\nrank_pair 2 {} {}", r, x, r, x).unwrap();
+            }
+        }
+    }
     // every absent / weight-a / weight-b pattern inside one rank pair
     for r in 0..13 {
         let cs = pocket_combos(r);
@@ -657,7 +666,7 @@ pub fn gen_c17(tier: &str, rng: &mut Rng, w: &mut dyn Write) {
     let thorough = tier == "thorough";
     let all = all_combos();
     let proper: [u32; 8] = [0x3F800000, 0x3F000000, 0x3DCCCCCD, 0x3E800000, 0x3F7FFFFF, 0, 0x3F000001, 0x3E7FFFFF];
-    for i in 0..(if thorough { 4000 } else { 300 }) {
+    for i in 0..(if thorough { 40000 } else { 300 }) {
         let es: Vec<(usize, u32)> = if i % 3 == 0 {
             // rows of complete rank pairs plus leftovers
             let mut es = row_range(&digits3(rng.below(1594323) as usize, 13), &[rand_row(rng)],
@@ -694,7 +703,7 @@ pub fn gen_c17(tier: &str, rng: &mut Rng, w: &mut dyn Write) {
 /// C15: k evaluators with their own flop / ranges / scope, interleaved and threaded
 pub fn gen_c15(tier: &str, rng: &mut Rng, w: &mut dyn Write) {
     use crate::gen2::{random_flop, random_pos, random_range};
-    for _ in 0..(if tier == "thorough" { 400 } else { 40 }) {
+    for _ in 0..(if tier == "thorough" { 2000 } else { 40 }) {
         let k = 2 + rng.below(5) as usize;
         let mut line = format!("c15 {} {}", rng.next() % 1_000_000_007, k);
         let shared_ranges: Vec<Vec<(usize, u32)>> = (0..2).map(|_| { let sz = 1 + rng.below(3) as usize; random_range(rng, sz, false) }).collect();
@@ -791,7 +800,7 @@ pub fn gen_c11(tier: &str, rng: &mut Rng, w: &mut dyn Write) {
             combo_code(x, (x + 25) % 52), combo_code((x + 31) % 52, (x + 40) % 52));
         writeln!(w, "{}", line).unwrap();
     }
-    for i in 0..(if tier == "thorough" { 400 } else { 24 }) {
+    for i in 0..(if tier == "thorough" { 4000 } else { 24 }) {
         let flop = random_flop(rng);
         let np = 2 + rng.below(2) as usize;
         let all24 = tier == "thorough" || i % 6 == 0;
